@@ -9,6 +9,9 @@ use bytes::{Buf, BufMut, Bytes, BytesMut};
 
 use std::convert::TryFrom;
 
+/// Upper bound on what a declared (not yet received) frame length may reserve.
+const MAX_RESERVE: usize = 8 * 1024;
+
 #[derive(Debug, Clone, Copy)]
 struct Frame {
     command: bool,
@@ -56,7 +59,9 @@ impl Decoder for ZmqCodec {
 
     fn decode(&mut self, src: &mut BytesMut) -> Result<Option<Self::Item>, Self::Error> {
         if src.len() < self.waiting_for {
-            src.reserve(self.waiting_for - src.len());
+            // The frame length comes from the peer: reserve at most one read's
+            // worth; the buffer still grows with the bytes actually received.
+            src.reserve((self.waiting_for - src.len()).min(MAX_RESERVE));
             return Ok(None);
         }
         match self.state {
